@@ -22,17 +22,26 @@
 (*            "inline" = unifex::inline_scheduler, whose schedule()        *)
 (*                       completes with set_done when the receiver's stop  *)
 (*                       token has stop requested.                         *)
+(*            "rec"    = (C11 clause) every harness thread is a context   *)
+(*                       with a recording manual scheduler: schedule()     *)
+(*                       enqueues the completion in sq[owner thread] and   *)
+(*                       only the owner delivers it (while it waits for    *)
+(*                       the outcome); doneBy[a] records the delivering    *)
+(*                       thread (AffineCompletion).                        *)
 (* st[a]: 0 idle, 1 started, 2 owns, 3 done, 4 unlocked, 5 try_lock failed *)
 (***************************************************************************)
 EXTENDS Naturals, Sequences, FiniteSets, TLC
 CONSTANTS Threads, Att, Scenarios
 VARIABLES scn, locked, queue, cs, nst, cancelled, flagSet, syncFlag, stopReq, reg, cbBy,
           pc, ip, cur, ret, tcFail, st, cnt, owned, ended, pushSeq, popSeq,
+          sq, doneBy,
           lastT, lastPc
 vars == <<scn, locked, queue, cs, nst, cancelled, flagSet, syncFlag, stopReq, reg, cbBy,
-          pc, ip, cur, ret, tcFail, st, cnt, owned, ended, pushSeq, popSeq>>
+          pc, ip, cur, ret, tcFail, st, cnt, owned, ended, pushSeq, popSeq, sq, doneBy>>
 View == vars
-SchedKind == IF scn.sched = 1 THEN "inline" ELSE "plain"
+SchedKind == IF scn.sched = 1 THEN "inline" ELSE IF scn.sched = 2 THEN "rec" ELSE "plain"
+\* the thread (= context) that starts attempt a
+Owner(a) == CHOOSE t \in Threads : \E i \in 1..Len(scn.prog[t]) : scn.prog[t][i] = <<"lock", a>>
 ProgOf(t) == scn.prog[t]
 OpK(t) == ProgOf(t)[ip[t]][1]
 OpA(t) == ProgOf(t)[ip[t]][2]
@@ -57,6 +66,7 @@ Init ==
   /\ cur = [t \in Threads |-> 0] /\ ret = [t \in Threads |-> "_opEnd"] /\ tcFail = [t \in Threads |-> "_opEnd"]
   /\ st = [a \in Att |-> 0] /\ cnt = [a \in Att |-> 0] /\ owned = [a \in Att |-> FALSE] /\ ended = [a \in Att |-> FALSE]
   /\ pushSeq = <<>> /\ popSeq = <<>>
+  /\ sq = [t \in Threads |-> <<>>] /\ doneBy = [a \in Att |-> 0]
   /\ lastT = 0 /\ lastPc = ""
 Go(t, l) == pc' = [pc EXCEPT ![t] = l] /\ UNCHANGED ip
 Mutex == <<locked, queue>>
@@ -64,15 +74,28 @@ Canc == <<cs, nst, cancelled, flagSet, syncFlag>>
 Stops == <<stopReq, reg, cbBy>>
 Loc == <<cur, ret, tcFail>>
 Hist == <<st, cnt, owned, ended, pushSeq, popSeq>>
+Rec == <<sq, doneBy>>
 
 \* ------------------------------------------------------------ harness level
 HLock(t) == /\ pc[t] = "h.lock"                         \* connect; LockStart; start(): cancellable::type::start()
             /\ st' = [st EXCEPT ![OpA(t)] = 1] /\ Go(t, "c.reg")
             /\ UNCHANGED <<Mutex, Canc, Stops, Loc, cnt, owned, ended, pushSeq, popSeq>>
 HTry(t) == /\ pc[t] = "h.try" /\ Go(t, "v2.try") /\ UNCHANGED <<Mutex, Canc, Stops, Loc, Hist>>
-HWait(t) == /\ pc[t] = "h.wait" /\ st[OpA(t)] # 1
-            /\ LET d == Dispatch(t, ip[t], st) IN pc' = [pc EXCEPT ![t] = d[1]] /\ ip' = [ip EXCEPT ![t] = d[2]]
-            /\ UNCHANGED <<Mutex, Canc, Stops, Loc, Hist>>
+\* the harness waits for the outcome of its attempt; with the recording scheduler it is also the event loop of its
+\* context: it delivers the completions that were scheduled onto it
+Outcome(a) == IF cancelled[a] THEN 3 ELSE 2
+RECURSIVE Deliver(_, _)
+Deliver(s, q) == IF q = <<>> THEN s ELSE Deliver([s EXCEPT ![Head(q)] = Outcome(Head(q))], Tail(q))
+InSeq(q, a) == \E i \in 1..Len(q) : q[i] = a
+HWait(t) == /\ pc[t] = "h.wait" /\ (st[OpA(t)] # 1 \/ sq[t] # <<>>)
+            /\ LET s2 == Deliver(st, sq[t])
+                    d == Dispatch(t, ip[t], s2) IN
+               /\ st' = s2 /\ pc' = [pc EXCEPT ![t] = d[1]] /\ ip' = [ip EXCEPT ![t] = d[2]]
+               /\ doneBy' = [a \in Att |-> IF InSeq(sq[t], a) THEN t ELSE doneBy[a]]
+               /\ owned' = [a \in Att |-> owned[a] \/ (InSeq(sq[t], a) /\ ~cancelled[a])]
+               /\ cnt' = [a \in Att |-> cnt[a] + IF InSeq(sq[t], a) THEN 1 ELSE 0]
+            /\ sq' = [sq EXCEPT ![t] = <<>>]
+            /\ UNCHANGED <<Mutex, Canc, Stops, Loc, ended, pushSeq, popSeq>>
 HUnlock(t) == /\ pc[t] = "h.unlock"                     \* unlock() = process_queue()
               /\ st' = [st EXCEPT ![OpA(t)] = 4] /\ ret' = [ret EXCEPT ![t] = "_opEnd"] /\ Go(t, "v2.pop")
               /\ UNCHANGED <<Mutex, Canc, Stops, cur, tcFail, cnt, owned, ended, pushSeq, popSeq>>
@@ -203,16 +226,21 @@ SpinWait(t) == /\ pc[t] = "spin_wait" /\ cbBy[cur[t]] \in {0, t}
 Fwd(t) == /\ pc[t] = "_fwd"
           /\ LET a == cur[t]
                  dn == cancelled[a] \/ (SchedKind = "inline" /\ stopReq[a]) IN
-             /\ st' = [st EXCEPT ![a] = IF dn THEN 3 ELSE 2]
-             /\ owned' = [owned EXCEPT ![a] = @ \/ ~dn]
-             /\ cnt' = [cnt EXCEPT ![a] = @ + 1]
+             IF SchedKind = "rec"
+             THEN /\ sq' = [sq EXCEPT ![Owner(a)] = Append(@, a)] /\ UNCHANGED <<st, owned, cnt, doneBy>>
+             ELSE /\ st' = [st EXCEPT ![a] = IF dn THEN 3 ELSE 2]
+                  /\ owned' = [owned EXCEPT ![a] = @ \/ ~dn]
+                  /\ cnt' = [cnt EXCEPT ![a] = @ + 1]
+                  /\ doneBy' = [doneBy EXCEPT ![a] = t] /\ UNCHANGED sq
           /\ Go(t, ret[t])
           /\ UNCHANGED <<Mutex, Canc, Stops, Loc, ended, pushSeq, popSeq>>
 
-Step(t) == \/ HLock(t) \/ HTry(t) \/ HWait(t) \/ HUnlock(t) \/ HStop(t) \/ OpEnd(t)
-           \/ CReg(t) \/ CStopped(t) \/ CbEnd(t) \/ CEarly(t) \/ AfterNested(t) \/ CStarted(t) \/ CSyncSpin(t)
-           \/ V2Try(t) \/ V2Push(t) \/ V2Xchg(t) \/ V2Pop(t) \/ V2Resume(t) \/ V2Rel(t) \/ V2Empty(t) \/ V2Reacq(t)
-           \/ NStop(t) \/ V2Remove(t) \/ CCompleted(t) \/ CFlag(t) \/ Cleanup(t) \/ SpinWait(t) \/ Fwd(t)
+Step(t) == \/ /\ \/ HLock(t) \/ HTry(t) \/ HUnlock(t) \/ HStop(t) \/ OpEnd(t)
+                 \/ CReg(t) \/ CStopped(t) \/ CbEnd(t) \/ CEarly(t) \/ AfterNested(t) \/ CStarted(t) \/ CSyncSpin(t)
+                 \/ V2Try(t) \/ V2Push(t) \/ V2Xchg(t) \/ V2Pop(t) \/ V2Resume(t) \/ V2Rel(t) \/ V2Empty(t) \/ V2Reacq(t)
+                 \/ NStop(t) \/ V2Remove(t) \/ CCompleted(t) \/ CFlag(t) \/ Cleanup(t) \/ SpinWait(t)
+              /\ UNCHANGED Rec
+           \/ HWait(t) \/ Fwd(t)
 StepF(t) == Step(t) /\ lastT' = t /\ lastPc' = pc[t] /\ UNCHANGED scn
 AllDone == \A t \in Threads : pc[t] = "finished"
 InStretch == \E t \in Threads : Silent(pc[t])
@@ -234,7 +262,10 @@ DoneOnlyIfCancelled == \A a \in Att : st[a] = 3 => cancelled[a]
 Idx(s, x) == CHOOSE i \in 1..Len(s) : s[i] = x
 FIFOGrant == \A i, j \in 1..Len(popSeq) : i < j => Idx(pushSeq, popSeq[i]) < Idx(pushSeq, popSeq[j])
 \* terminal form of "no lost waiter" / "lock not leaked" (TLC's deadlock check covers the blocked form)
-Terminal == AllDone => /\ ~locked /\ queue = <<>>
+\* C11 clause (is_always_scheduler_affine): a completion is delivered on the context that started the attempt
+\* (with "plain"/"inline" schedulers a completion runs inline wherever the grant happens, so this is stated for "rec")
+AffineCompletion == SchedKind = "rec" => \A a \in Att : doneBy[a] # 0 => doneBy[a] = Owner(a)
+Terminal == AllDone => /\ ~locked /\ queue = <<>> /\ \A t \in Threads : sq[t] = <<>>
                        /\ \A a \in Att : st[a] \in {0, 3, 4, 5}
 \* a waiter obtained by pop_front has not been completed by anybody else: the "already completed by stop" branch of
 \* resume_ (which releases the lock again) is never taken, because stop() completes only a waiter it removed itself
